@@ -10,19 +10,28 @@ PROPS_V = 'C04/Props.v'
 LEVEL = 'proof'
 TRUSTED = [
     'translate/c04.py + translate/pyexpr.py: Python ast -> Gallina for the range ends, RA wrap, validity test, floor-binning expressions and walk tests of chunks.assign/getbounds/get (Generated/Chunks.v; C04_generated_index_arithmetic proves them equal to the model\'s)',
+    'translate/c04.py (round 5): the same for chunks.wrapra, rarange, getraminmax, chunks.__init__ (nDec, padding, clamps, pinned bounds, per-slice nRa / padding / embrace / polar clauses), the head of spherematch (chunk size), the pair loop shape and its filter, the guard of assign, the raMargin switch of getbounds (C04_generated_grid_is_reference: equal to the reference pieces of C04/SceneModel.v)',
     'hand-written model C04/Model.v (selection loops, chunks.assign bookkeeping incl. RA wrap arithmetic, pair loop) -- '
     'tied to the code by exact reproduction of (match1, match2, distance12) and of chunkList from recorded getbounds()/get()/argsort data',
-    'harness/impl/c04_impl.py: wraps chunks.getbounds/get and the np.array(...).argsort() call from the harness process to record discrete data',
+    'hand-written C04/SceneModel.v: get_model / scene (tied by exact reproduction of every recorded getbounds and get result), grid model run_grid (tied by comparison with the recorded minSize, raOffset, raMin/raMax, decBounds, nRa, raBounds ends, rotated RA of every point)',
+    'harness/impl/c04_impl.py: wraps chunks.getbounds/get and the np.array(...).argsort() call from the harness process to record discrete data; recomputes raMargin and the cosines with the numpy expressions of the source',
+    'numpy cos/sin/arcsin (their values enter the grid model and the scene as recorded numbers)',
     'gcirc: the separation table is computed with the implementation\'s own gcirc (its geometric correctness is C18)',
     'numpy argsort returns a sorting permutation (checked per case inside Coq by is_sorting_perm)',
-    'Coq stdlib ZArith, QArith, Lists, Sorting (theorems closed under the global context)',
+    'Coq stdlib ZArith, QArith, Lists, Sorting (discrete theorems closed under the global context); Reals for the spherical geometry (classical axioms, listed by Print Assumptions)',
 ]
 ASSUMPTIONS = [
-    'coverage (every pair closer than L shares the cell looked up for the list-1 point) is a HYPOTHESIS of C04_spherematch_spec: '
-    'geometry (floor binning, fmod, cos, margin walk of chunks.__init__/getbounds/get) is not proved; the correspondence run searches for counterexamples',
-    'inputs: RA in [0,360), |Dec| < 90, at least 2 points in list 1, 1 in list 2, matchlength 1 arcsec .. 30 deg, chunksize None or > matchlength',
+    'coverage (every pair closer than L shares the cell looked up for the list-1 point) is a HYPOTHESIS of C04_spherematch_spec. Round 5: '
+    'C04_coverage_from_margins proves it from scene_ok (decided in Coq on the recorded grid of every run whose grid has <= 250 bound values) and '
+    'margins_sound (separation < L puts the pair within the declination margin and, on the circle, within raMargin); margins_sound is proved '
+    'over the reals (C04_dec_margin_strict, C04_ra_margin_circ, for L <= 90 deg) and decided per case on the doubles (margins_check); '
+    'NOT proved: the floating-point evaluation (binning, comparisons, trig, gcirc), the degrees/radians and Q/R link, and that chunks.__init__ '
+    'always builds a grid satisfying scene_ok (C04_ra_margin_le_cell gives the key inequality raMargin <= chunksize/cosDecMin for chunksize >= 4L)',
+    'inputs: RA in [0,360) (family `wrapped`: one turn either side, reduced by chunks.wrapra), |Dec| < 90, at least 2 points in list 1, 1 in list 2, '
+    'matchlength 1 mas .. 150 deg (family `widecap`: beyond 90 deg), chunksize None or > matchlength',
     'pairs whose separation is within 1e-9 (relative) of the match length are not generated, except the exact-threshold family where '
-    'L is set to a separation the implementation itself computed (the statement leaves sep == L open; the checker accepts both)',
+    'L is set to a separation the implementation itself computed (the statement leaves sep == L open; the checker accepts both) and the `near` family',
+    'float32 coordinate arrays: numpy then builds the grid in single precision; the grid model compares with tolerance 1e-5 instead of 1e-9',
 ]
 
 D2R = math.pi / 180.0
@@ -39,7 +48,7 @@ def translate(ctx):
         import subprocess
         committed = subprocess.run(['git', '-C', C.VERIF, 'show', 'HEAD:coq/Generated/Chunks.v'], stdout=subprocess.PIPE,
                                    stderr=subprocess.DEVNULL, text=True).stdout
-        if 'gen_greedy_enabled' in committed:     # only a committed file that already has all the pieces the proofs use
+        if 'gen_greedy_enabled' in committed and 'gen_wrapra' in committed:     # only a committed file that already has all the pieces the proofs use
             info['restored_committed_file'] = C.restore_generated('coq/Generated/Chunks.v')
         info['note'] = ('source shape not recognised; the committed (else the previous) Generated/Chunks.v is used and the '
                         'correspondence run alone ties the index arithmetic of the model to the code')
@@ -173,7 +182,7 @@ def gen_points(rng, fam, L):
     return p1[:60], p2[:60]
 
 
-FAMILIES = ['pairs', 'seam', 'pole', 'dups', 'allsky', 'smallchunk', 'polebound', 'highdec', 'dtype', 'arc', 'near', 'selfmatch', 'threshold', 'edges', 'convex']
+FAMILIES = ['pairs', 'seam', 'pole', 'dups', 'allsky', 'smallchunk', 'polebound', 'highdec', 'dtype', 'arc', 'near', 'selfmatch', 'wrapped', 'widecap', 'threshold', 'edges', 'convex']
 
 
 def polebound_case(rng):
@@ -472,7 +481,55 @@ def selfmatch_case(rng):
     return limit_cost(c)
 
 
+def wrapped_case(rng):
+    """right ascensions given one turn off: RA - 360 (negative) or RA + 360 for a random subset of either list -- the same
+    points of the sphere; chunks.wrapra reduces them.  Outside the letter of the property (RA in [0, 360)) but inside what
+    the code accepts: the answer must be the one for the reduced coordinates (the separation table is computed by the
+    implementation's gcirc on the coordinates as given)"""
+    base = None
+    for _ in range(50):
+        base = gen_case(rng, rng.choice(['pairs', 'seam', 'seam', 'dups', 'arc', 'pole']))
+        if admissible(base):
+            break
+    c = dict(base)
+    kind = rng.choice(['negative', 'negative', 'beyond-360', 'mixed'])
+    for key in ('ra1', 'ra2'):
+        out = []
+        for r in c[key]:
+            t = rng.random()
+            if t < 0.5:
+                sh = {'negative': -360.0, 'beyond-360': 360.0, 'mixed': rng.choice([-360.0, 360.0])}[kind]
+                out.append(float(r) + sh)
+            else:
+                out.append(float(r))
+        c[key] = out
+    c['fam'] = 'wrapped'
+    c['wrapped_kind'] = kind
+    c['ra_domain'] = 'extended'
+    return c
+
+
+def widecap_case(rng):
+    """match lengths beyond 90 degrees (the cap around a point is more than a hemisphere; "any match length" of the
+    property): points all over the sky, partners near L and near 180 - L from the antipode"""
+    L = rng.uniform(90.5, 150.0)
+    n1, n2 = rng.randint(4, 14), rng.randint(4, 14)
+    p1 = [sphere_point(rng) for _ in range(n1)]
+    p2 = [sphere_point(rng) for _ in range(n2)]
+    for _ in range(rng.randint(2, 6)):
+        a = rng.choice(p1)
+        p2.append(offset_point(a[0], a[1], min(179.0, L * (1 + rng.choice([-1, 1]) * rng.choice([1e-3, 1e-2, 1e-1]))), rng.uniform(0, 360)))
+    rng.shuffle(p2)
+    return limit_cost({'fam': 'widecap', 'ra1': [p[0] for p in p1], 'dec1': [p[1] for p in p1], 'ra2': [p[0] for p in p2],
+                       'dec2': [p[1] for p in p2], 'L': L, 'chunksize': rng.choice([None, None, 4.0 * L, 5.0 * L]),
+                       'maxmatch': rng.choice([0, 0, 0, 1])})
+
+
 def gen_case(rng, fam):
+    if fam == 'wrapped':
+        return wrapped_case(rng)
+    if fam == 'widecap':
+        return widecap_case(rng)
     if fam == 'near':
         return near_case(rng)
     if fam == 'selfmatch':
@@ -603,6 +660,8 @@ def edge_variant(rng, case, res):
 
 HEADER = '''From Coq Require Import ZArith QArith List. Import ListNotations.
 From PV Require Import C04.Model. Close Scope Q_scope. Open Scope Z_scope.'''
+HEADER2 = '''From Coq Require Import ZArith QArith List. Import ListNotations.
+From PV Require Import C04.Model C04.SceneModel. Close Scope Q_scope. Open Scope Z_scope.'''
 
 
 def m2e(x, keep=None):
@@ -680,6 +739,42 @@ def geom_term(res, max_numbers=250):
     return '(mkgeom %s %s %s %s, %s)' % (decB, raB, qt(rec['gbargs'][0][2]), pts, C.coq_list(bs))
 
 
+def scene_term(res, max_numbers=250):
+    """option scene: the grid and the rotated coordinates of both lists as get()/getbounds() received them (exact rationals
+    of the doubles), or None when the grid is too large to ship"""
+    rec = res.get('rec') or {}
+    if (not rec.get('gbargs') or rec.get('bounds') is None or len(rec['gbargs']) != len(rec['bounds']) or
+            not rec.get('getargs') or rec.get('cells') is None or len(rec['getargs']) != len(rec['cells']) or rec.get('perm') is None):
+        return '(@None scene)'
+    if len(rec['decBounds']) + sum(len(rb) for rb in rec['raBounds']) > max_numbers:
+        return '(@None scene)'
+    decB = C.coq_list([qt(x) for x in rec['decBounds']])
+    raB = C.coq_list([C.coq_list([qt(x) for x in rb]) for rb in rec['raBounds']])
+    p1 = C.coq_list(['(%s, %s)' % (qt(a[0]), qt(a[1])) for a in rec['getargs']])
+    p2 = C.coq_list(['(%s, %s, %s)' % (qt(a[0]), qt(a[1]), qt(a[3])) for a in rec['gbargs']])
+    return '(Some (mkscene %s %s %s %s %s))' % (decB, raB, qt(rec['gbargs'][0][2]), p1, p2)
+
+
+def grid_term(case, res):
+    """gridrec: the inputs and what chunks.__init__ / rarange / spherematch's head decided (None when not recorded)"""
+    rec = res.get('rec') or {}
+    if rec.get('cos0') is None or rec.get('getargs') is None or rec.get('gbargs') is None or rec.get('raMin') is None:
+        return None
+    if len(rec['getargs']) != len(case['ra1']) or len(rec['gbargs']) != len(case['ra2']):
+        return None
+    ql = lambda xs: C.coq_list([qt(float(x)) for x in xs])
+    chunk = 'None' if case['chunksize'] is None else '(Some %s)' % qt(float(case['chunksize']))
+    ends = C.coq_list(['(%s, %s)' % (qt(rb[0]), qt(rb[-1])) for rb in rec['raBounds']])
+    # numpy (NEP 50) keeps single precision when a float32 array meets a Python float: with float32 list-1 coordinates
+    # chunks.__init__ / rarange / wrapra work in single precision
+    dt = case.get('dtype') or {}
+    tol = 'tol9' if not any(dt.get(k) == 'float32' for k in ('ra1', 'dec1', 'ra2', 'dec2')) else '(1 # 100000)'
+    return '(mkgrid %s %s %s %s %s %s %s %s %s %s %s %s %s %s %s %s %s)' % (
+        ql(case['ra1']), ql(case['dec1']), ql(case['ra2']), chunk, qt(float(case['L'])), qt(rec['cos0']), ql(rec['cos']),
+        qt(rec['minSize']), qt(rec['raOffset']), qt(rec['raMin']), qt(rec['raMax']), ql(rec['decBounds']),
+        C.coq_list([C.zlit(x) for x in rec['nRa']]), ends, ql([a[0] for a in rec['getargs']]), ql([a[0] for a in rec['gbargs']]), tol)
+
+
 # --------------------------------------------------------------------------- diagnosis (uncertified; for messages and signatures only)
 
 def diagnose(case, res):
@@ -729,6 +824,8 @@ def chunk_class(case):
 
 def sig_class(case):
     cs = case['chunksize']
+    if case['L'] > 90.0:
+        return 'matchlength>90deg'
     return 'chunksize>=4L' if (cs is None or cs >= 4.0 * case['L']) else 'chunksize<4L'
 
 
@@ -744,7 +841,7 @@ def near_threshold(case, res):
 def admissible(case):
     return (len(case['ra1']) >= 2 and len(case['ra2']) >= 1 and
             (case['chunksize'] is None or case['chunksize'] > case['L']) and
-            all(0.0 <= r < 360.0 for r in case['ra1'] + case['ra2']) and
+            all((-360.0 <= r < 720.0) if case.get('ra_domain') == 'extended' else (0.0 <= r < 360.0) for r in case['ra1'] + case['ra2']) and
             all(abs(d) < 90.0 for d in case['dec1'] + case['dec2']))
 
 
@@ -832,16 +929,16 @@ def run_batch(cases):
 
 
 def correspond(ctx, proof_ok=True):
-    ok, log = C.coq_make(['C04/Model.vo'])
+    ok, log = C.coq_make(['C04/Model.vo', 'C04/SceneModel.vo'])
     if not ok:
-        raise RuntimeError('C04/Model.v does not build:\n' + log[-2000:])
+        raise RuntimeError('C04/Model.v / C04/SceneModel.v do not build:\n' + log[-2000:])
     rng = ctx.rng
     n_per = ctx.n(34, 700)
     cases = []
     for fam in FAMILIES:
         if fam in ('edges', 'threshold', 'convex'):
             continue
-        for _ in range({'smallchunk': ctx.n(60, 1200), 'polebound': ctx.n(8, 100), 'dtype': ctx.n(16, 300), 'arc': ctx.n(12, 300), 'near': ctx.n(16, 300), 'selfmatch': ctx.n(20, 300)}.get(fam, n_per)):
+        for _ in range({'smallchunk': ctx.n(60, 1200), 'polebound': ctx.n(8, 100), 'dtype': ctx.n(16, 300), 'arc': ctx.n(12, 300), 'near': ctx.n(16, 300), 'selfmatch': ctx.n(20, 300), 'wrapped': ctx.n(24, 400), 'widecap': ctx.n(24, 300)}.get(fam, n_per)):
             c = gen_case(rng, fam)
             if admissible(c):
                 cases.append(c)
@@ -855,6 +952,7 @@ def correspond(ctx, proof_ok=True):
                                         'the brute-force pair set inside the implementation process'}
     results, info = run_batch(cases)
     ctx.coverage['pydl_file'] = info['pydl_file']
+    ctx.coverage['ramargin_test_in_source'] = info.get('ramargin_test')
     # second phase: edge placements and exact-threshold cases derived from the first runs
     extra = []
     for c, r in zip(cases, results):
@@ -904,11 +1002,13 @@ def correspond(ctx, proof_ok=True):
         if c['fam'] not in ('threshold', 'near') and near_threshold(c, r):
             skipped += 1
             continue
-        terms.append(case_term(c, r))
+        terms.append('(%s, %s)' % (case_term(c, r), scene_term(r)))
         idx.append(n)
     size = [len(t) for t in terms]
-    cc = C.CoqCases(ctx.work, HEADER, 'run_cases', shard=max(4, len(terms) // (3 * C.NPROC) + 1))
-    verdicts = cc.run(terms)
+    cc = C.CoqCases(ctx.work, HEADER2, 'run_fulls', shard=max(4, len(terms) // (3 * C.NPROC) + 1))
+    full = cc.run(terms)
+    verdicts = [v & 3 for v in full]
+    scene_bits = [v >> 2 for v in full]
     ctx.coverage['coq_eval_s'] = round(cc.coq_seconds, 1)
     nrec = sum(1 for n in idx if (results[n].get('rec') or {}).get('perm') is not None)
     npairs = sum(len(results[n]['ok']['m1']) for n in idx)
@@ -925,31 +1025,99 @@ def correspond(ctx, proof_ok=True):
         'largest_case_chars': max(size) if size else 0,
         'samples': [dict(cases[n], impl={k: v for k, v in results[n].items() if k not in ('sep', 'rec')}) for n in idx[:3]],
     })
-    # the exact-rational model of the getbounds walks (theorems C04_dec_coverage / C04_ra_coverage / C04_get_in_bounds are about
-    # it) against the recorded getbounds results; the model computes in Q what the code computes in doubles
+    # the scene of every case whose grid is small enough to ship (<= 250 bound values): the exact-rational models of
+    # getbounds / get against the recorded results, the decided side conditions scene_ok of C04_coverage_from_margins and
+    # the per-case decision margins_check of what is left of the geometry
+    with_scene = [k for k, t in enumerate(terms) if 'mkscene' in t]
+    npts = sum(len(results[idx[k]]['rec']['bounds']) for k in with_scene)
+    nget = sum(len(results[idx[k]]['rec']['cells']) for k in with_scene)
+    bitcount = {b: sum(1 for k in with_scene if scene_bits[k] & b) for b in (1, 2, 4, 8, 16)}
+    ctx.coverage['getbounds_walk_model'] = {
+        'cases': len(with_scene), 'getbounds_calls_compared': npts, 'get_calls_compared': nget,
+        'disagreements_getbounds': bitcount[1], 'disagreements_get': bitcount[2],
+        'rule': 'scene_bounds / scene_cell (getbounds_model, get_model: cell_index, dec_down/dec_up, ra_down/ra_up on exact rationals of '
+                'the recorded bounds, rotated coordinates and raMargin) must return the recorded getbounds results (None where it raised) '
+                'and the recorded get results; cases with more than 250 bound values are not shipped'}
+    ctx.coverage['coverage_certified'] = {
+        'cases_with_scene': len(with_scene), 'scene_sharp_false': bitcount[4], 'margins_check_false': bitcount[8],
+        'scene_ok_false_only_conservative_part': bitcount[16],
+        'not_certified_by_family': {f: sum(1 for k in with_scene if scene_bits[k] and cases[idx[k]]['fam'] == f)
+                                    for f in sorted(set(cases[idx[k]]['fam'] for k in with_scene if scene_bits[k]))},
+        'certified': sum(1 for k in with_scene if scene_bits[k] == 0),
+        'rule': 'certified = scene_bounds and scene cells equal the recorded ones, scene_ok = true and margins_check = true, all evaluated '
+                'in Coq: by C04_coverage_from_margins + C04_margins_check_sound `coverage` HOLDS for the recorded getbounds/get data of this '
+                'call (the data model_agrees reproduces the output from), so C04_spherematch_spec applies to it without hypothesis'}
+    seen_scene = set()
+    for k in with_scene:
+        sb = scene_bits[k]
+        if not sb:
+            continue
+        n = idx[k]
+        c, r = cases[n], results[n]
+        if sb & 3:
+            sig = 'C04:model-mismatch:getbounds-walk' if sb & 1 else 'C04:model-mismatch:get'
+            if sig not in seen_scene:
+                seen_scene.add(sig)
+                ctx.violation(sig, 'the exact-rational model of %s differs from the recorded results (family %s)' % (
+                                  'the getbounds walks' if sb & 1 else 'chunks.get', c['fam']),
+                              {'kind': 'broken-correspondence', 'item': 'C04.Model.getbounds_model / C04.SceneModel.get_model (dec_down/dec_up/ra_down/ra_up/cell_index)',
+                               'call': c, 'recorded_bounds': r['rec']['bounds'], 'gbargs': r['rec']['gbargs'], 'recorded_cells': r['rec']['cells'],
+                               'getargs': r['rec']['getargs'], 'scene_bits': sb,
+                               'note': 'either the source of getbounds/get changed, or a double-precision evaluation landed on the other side '
+                                       'of a comparison than the exact one'}, False)
+        if sb & 4:
+            sig = 'C04:grid-malformed:%s' % sig_class(c)
+            if sig not in seen_scene:
+                seen_scene.add(sig)
+                ctx.violation(sig, 'scene_sharp = false: the grid this call built is not well formed (family %s, L=%g, chunksize=%s): non-monotone '
+                                   'or empty bounds, a list-1 point outside the bounds of the cell get() computes for it, or a rotated right ascension '
+                                   'outside [0, 360)' % (c['fam'], c['L'], c['chunksize']),
+                              {'kind': 'broken-correspondence', 'item': 'C04.SceneModel.scene_sharp (part of the hypothesis scene_ok of C04_coverage_from_margins)', 'call': c,
+                               'nRa': r['rec']['nRa'], 'decBounds': r['rec']['decBounds'], 'raOffset': r['rec']['raOffset'], 'scene_bits': sb,
+                               'note': 'no pair is known to be lost on this input (that would be reported with a failing input by match_ok); '
+                                       'the proof of coverage does not apply to this grid'}, False)
+        if sb & 8 and c['fam'] not in ('near', 'threshold'):
+            # (the near / threshold families put pairs within rounding of L: there gcirc and the margins may disagree)
+            sig = 'C04:margins:%s' % sig_class(c)
+            if sig not in seen_scene:
+                seen_scene.add(sig)
+                ctx.violation(sig, 'margins_check = false: a pair whose separation (gcirc) is below the match length is not within the declination '
+                                   'margin / the RA margin on the circle that getbounds used for the list-2 point (family %s)' % c['fam'],
+                              {'kind': 'broken-correspondence', 'item': 'C04.SceneModel.margins_sound (C04_dec_margin_strict / C04_ra_margin_circ)', 'call': c,
+                               'gbargs': r['rec']['gbargs'], 'getargs': r['rec']['getargs'], 'scene_bits': sb}, False)
+    # what decides the grid (chunk size, rarange/raOffset, wrapra, nDec/decBounds, per-slice nRa/raBounds with the embrace and
+    # polar clauses): the exact-rational model of C04/SceneModel.v (reference pieces = the generated ones) against the recorded values
     gterms, gidx = [], []
+    per_fam = {}
     for n in idx:
-        t = geom_term(results[n])
+        # a bounded sample per family (the terms are long: every coordinate is a 53-bit literal)
+        if per_fam.get(cases[n]['fam'], 0) >= ctx.n(8, 150):
+            continue
+        t = grid_term(cases[n], results[n])
         if t is not None:
             gterms.append(t)
             gidx.append(n)
-    gcc = C.CoqCases(ctx.work, HEADER, 'run_geoms', shard=max(4, len(gterms) // (2 * C.NPROC) + 1))
-    gdis = gcc.run(gterms, tag='geom') if gterms else []
-    npts = sum(len(results[n]['rec']['bounds']) for n in gidx)
-    ctx.coverage['getbounds_walk_model'] = {
-        'cases': len(gterms), 'getbounds_calls_compared': npts, 'disagreements': int(sum(gdis)),
-        'rule': 'getbounds_model (cell_index, dec_down/dec_up, ra_down/ra_up on exact rationals of the recorded bounds, point and raMargin) '
-                'must return the recorded (decChunkMin, raChunkMin[], raChunkMax[]) or None where getbounds raised; cases with more than '
-                '250 bound values are not shipped'}
-    for n, d in zip(gidx, gdis):
-        if d:
-            ctx.violation('C04:model-mismatch:getbounds-walk',
-                          'the exact-rational model of the getbounds walks differs from the recorded getbounds results on %d of %d list-2 '
-                          'points (family %s)' % (d, len(results[n]['rec']['bounds']), cases[n]['fam']),
-                          {'kind': 'broken-correspondence', 'item': 'C04.Model.getbounds_model (dec_down/dec_up/ra_down/ra_up/cell_index)',
-                           'call': cases[n], 'recorded_bounds': results[n]['rec']['bounds'], 'gbargs': results[n]['rec']['gbargs'],
-                           'note': 'either the source of getbounds changed, or a double-precision evaluation landed on the other side of a '
-                                   'comparison than the exact one'}, False)
+            per_fam[cases[n]['fam']] = per_fam.get(cases[n]['fam'], 0) + 1
+    gcc = C.CoqCases(ctx.work, HEADER2, 'run_grids', shard=max(4, len(gterms) // (2 * C.NPROC) + 1))
+    gv = gcc.run(gterms, tag='grid') if gterms else []
+    GBITS = {1: 'chunksize', 2: 'raOffset', 4: 'raMin-raMax', 8: 'nDec-decBounds', 16: 'nRa-raBounds', 32: 'wrapra-currRa'}
+    undecided = sum(1 for v in gv if v & 64)
+    ctx.coverage['grid_model'] = {
+        'cases': len(gterms), 'disagreements': sum(1 for v in gv if v & 63 and not v & 64), 'near_threshold_undecided': undecided,
+        'slices_compared': sum(len(results[n]['rec']['nRa']) for n in gidx),
+        'rule': 'eff_chunksize, rarange_model (raOffset compared exactly), getraminmax_model, init_decBounds, init_slice per declination '
+                'slice (nRa exactly, raBounds ends to 1e-9) and ref_currRa (wrapra) of every point of both lists, evaluated in exact rationals '
+                'on the doubles of the call, against what the implementation computed; cos() values are taken from the implementation; a case '
+                'in which an exact floor argument or comparison lies within 1e-9 of its threshold is undecided'}
+    for n, v in zip(gidx, gv):
+        if v & 63 and not v & 64:
+            what = '+'.join(nm for b_, nm in GBITS.items() if v & b_)
+            ctx.violation('C04:model-mismatch:grid:%s' % what,
+                          'the exact-rational model of what decides the grid (C04/SceneModel.v) differs from the implementation in: %s '
+                          '(family %s, L=%g, chunksize=%s)' % (what, cases[n]['fam'], cases[n]['L'], cases[n]['chunksize']),
+                          {'kind': 'broken-correspondence', 'item': 'C04.SceneModel.run_grid (%s)' % what, 'call': cases[n], 'verdict': v,
+                           'recorded': {k: results[n]['rec'].get(k) for k in ('minSize', 'raOffset', 'raMin', 'raMax', 'nDec', 'nRa', 'decBounds', 'cos0')}},
+                          False)
             break
     check_histories(ctx, HEADER)
     seen = set()
@@ -1007,6 +1175,7 @@ def replay(ctx, rep):
         return 0
     print('impl    :', out['ok'])
     print('diagnosis (brute force with the implementation\'s gcirc):', diagnose(c, out))
-    cc = C.CoqCases(ctx.work, HEADER, 'run_cases', shard=1)
-    print('coq verdict (0 ok, +1 model differs, +2 match_ok rejects):', cc.run([case_term(c, out)]))
+    cc = C.CoqCases(ctx.work, HEADER2, 'run_fulls', shard=1)
+    print('coq verdict (0 ok, +1 model differs, +2 match_ok rejects; scene: +4 getbounds model, +8 get model, +16 grid malformed, '
+          '+32 margins_check fails, +64 coverage not certified by scene_ok):', cc.run(['(%s, %s)' % (case_term(c, out), scene_term(out))]))
     return 0
